@@ -1130,6 +1130,8 @@ def _eval_files(files):
     bad, errs = [], []
     for p, items in files:
         rc, out = res[p]
+        if rc != 0 and not out.strip():        # killed without a message (memory pressure): once more, alone
+            rc, out = common.coqc(p, 900)
         idx = common.parse_nat_list(out) if rc == 0 else None
         if idx is None:
             errs.append({"file": p.name, "log": out[-1200:]})
